@@ -191,3 +191,100 @@ def _comp_unit(rank):
 
 for _r in (0, 1, 2, 3):
     _comp_unit(_r)
+
+
+# ------------------------------------------------------------------ tabulators: what a K-point contributes, and reading the table back
+FTAB = "wannierberri/calculators/tabulate.py"
+
+
+@unit("C30", "TabulatorAll: one TABresult per K-point with that K-point's own k-points and every tabulator's values", scope="shape:2 tabulators + automatic Energy; band selections", expect_min=3)
+def _taball(U):
+    import types
+    made = []
+
+    class TAB:
+        def __init__(self, **kw):
+            self.kw = kw
+            made.append(self)
+
+    class EnergyStub:
+        ibands = None
+        comment = "energy"
+
+        def __call__(self, data_K):
+            return ("Energy-of", data_K.tag, None if self.ibands is None else tuple(self.ibands))
+
+    class Calc:
+        def _set_comment(self, print_comment):
+            self.pc = print_comment
+    TA = U.klass(FTAB, "TabulatorAll", globs=dict(np=rnp, Energy=EnergyStub, TABresult=TAB), model=False, rewrite_comps=False, bases=(Calc,))
+
+    def body():
+        class T:
+            def __init__(self, name, ibands=None):
+                self.name, self.ibands, self.comment = name, ibands, "c"
+
+            def __call__(self, data_K):
+                return (self.name, data_K.tag, None if self.ibands is None else tuple(self.ibands))
+        tabs = {"berry": T("berry"), "v": T("v", ibands=rnp.array([0, 2]))}
+        ta = TA(tabs, ibands=[0, 2], mode="Grid")
+        U.ensure("Energy is always tabulated; the band selection is handed to every tabulator that has none; mode is case-insensitive",
+                 set(ta.tabulators) == {"berry", "v", "Energy"} and all(tuple(t.ibands) == (0, 2) for t in ta.tabulators.values()) and ta.mode == "grid" and ta.allow_grid and not ta.allow_path)
+        bad = []
+        try:
+            TA({"v": T("v", ibands=rnp.array([0, 1]))}, ibands=[0, 2])
+            bad.append("conflicting ibands accepted")
+        except ValueError:
+            pass
+        try:
+            TA({}, mode="line")
+            bad.append("unknown mode accepted")
+        except AssertionError:
+            pass
+        U.ensure("a tabulator with a different band selection and an unknown mode are refused", not bad)
+        kp = rnp.array([[0.1, 0.2, 0.3], [0.6, 0.2, 0.3]])
+        data = types.SimpleNamespace(tag="K7", kpoints_all=kp, system=types.SimpleNamespace(recip_lattice="RECIP"))
+        ta(data)
+        kw = made[-1].kw
+        U.ensure("the TABresult of a K-point holds a copy of ITS k-points (kpoints_all), the mode, the reciprocal lattice and every tabulator evaluated on THAT Data_K",
+                 rnp.array_equal(kw["kpoints"], kp) and kw["kpoints"] is not kp and kw["mode"] == "grid" and kw["recip_lattice"] == "RECIP" and kw["save_mode"] == "bin"
+                 and kw["results"] == {"berry": ("berry", "K7", (0, 2)), "v": ("v", "K7", (0, 2)), "Energy": ("Energy-of", "K7", (0, 2))})
+    U.run(body, check_feasible=False)
+
+
+@unit("C30", "TABresult.get_data / self_to_grid / get_component_list", scope="shape:2x3x2 grid, 3 bands, rank-1 quantity", expect_min=3)
+def _getdata(U):
+    import types
+    from collections.abc import Iterable
+    gc = U.fn(FK, "get_component", globs=dict(np=rnp, Iterable=Iterable), model=False, rewrite_comps=False)
+    KR = U.klass(FK, "K__Result", globs=dict(np=rnp, itertools=itertools, get_component=gc), rewrite_comps=False, only=("get_component_list", "ndim", "get_component", "data", "rank") if False else ("get_component_list", "ndim", "get_component", "data"))
+    TAB = U.klass(FT, "TABresult", globs=dict(np=rnp, Iterable=Iterable), rewrite_comps=False, only=("get_data", "Enk", "self_to_grid", "_TABresult__get_data_grid", "_TABresult__get_data_path", "__get_data_grid", "__get_data_path"))
+
+    def body():
+        grid = (2, 3, 2)
+        nk, nb = 12, 3
+        E = rnp.arange(nk * nb, dtype=float).reshape(nk, nb)
+        V = rnp.arange(nk * nb * 3, dtype=float).reshape(nk, nb, 3) * 0.5 + 100
+        eres, vres = KR.__new__(KR), KR.__new__(KR)
+        eres.data_list, vres.data_list = [E], [V]
+        eres.rank, vres.rank = 0, 1
+        t = TAB.__new__(TAB)
+        t.results, t.nband, t.grid = {"Energy": eres, "v": vres}, nb, rnp.array(grid)
+        ok = True
+        for (ix, iy, iz) in itertools.product(*[range(g) for g in grid]):
+            s = iz + grid[2] * (iy + grid[1] * ix)
+            ok = ok and rnp.array_equal(t.get_data("Energy")[ix, iy, iz], E[s]) and rnp.array_equal(t.get_data("v")[ix, iy, iz], V[s])
+            ok = ok and t.get_data("v", iband=1, component="y")[ix, iy, iz] == V[s, 1, 1] and rnp.array_equal(t.get_data("v", iband=[0, 2], component="z")[ix, iy, iz], V[s, [0, 2], 2])
+        U.ensure("grid mode: get_data(quantity)[ix,iy,iz] is the row of grid point (ix,iy,iz) in C order, for all bands / one band / a band list, whole tensor or one component", ok)
+        t.grid = None
+        U.ensure("path mode: get_data returns the rows in path order", rnp.array_equal(t.get_data("Energy"), E) and rnp.array_equal(t.get_data("v", iband=2), V[:, 2]) and rnp.array_equal(t.get_data("v", iband=[1], component="x"), V[:, [1], 0]))
+        U.ensure("get_component_list: rank 0 -> [None]; rank 1 -> x, y, z; rank 2 -> the 9 pairs + trace",
+                 eres.get_component_list() == [None] and vres.get_component_list() == ["x", "y", "z"]
+                 and (lambda r: (setattr(r, "data_list", [rnp.zeros((1, 1, 3, 3))]), r.get_component_list())[1])(KR.__new__(KR)) == ["".join(p) for p in itertools.product("xyz", repeat=2)] + ["trace"])
+        seen = []
+        t2 = TAB.__new__(TAB)
+        t2.find_grid = "FOUND"
+        t2.to_grid = lambda g, order="?": (seen.append((g, order)), types.SimpleNamespace(grid="G", kpoints="K", marker=1))[1]
+        t2.self_to_grid()
+        U.ensure("self_to_grid = to_grid(find_grid, order 'C') taken over in place", seen == [("FOUND", "C")] and t2.grid == "G" and t2.kpoints == "K" and t2.marker == 1)
+    U.run(body, check_feasible=False)
